@@ -233,7 +233,72 @@ def rule_shared(run):
     c11.rule_entityinfo(run)
 
 
-RULES = [rule_interface, rule_port_map, rule_templates, rule_library_order, rule_defaults, rule_shared]
+def rule_registration(run):
+    run.begin(
+        "C12.f",
+        "an instance / context / exit handler created while a block is being elaborated is registered with the INNERMOST "
+        "open block (top of the block stack), so a sub-entity lands in the architecture of the entity that created it",
+        floor=4,
+    )
+    ctx = run.idx.mod(CTX)
+    n = 0
+    for q, f in ctx.functions.items():
+        for c in calls_in(f.node):
+            if isinstance(c.func, ast.Attribute) and c.func.attr == "append":
+                d = c.func.value
+                # <stack>[k]._cohdl_block_info.<list>.append(x)
+                if isinstance(d, ast.Attribute) and isinstance(d.value, ast.Attribute) and d.value.attr == "_cohdl_block_info" and isinstance(d.value.value, ast.Subscript) and dotted(d.value.value.value) == "_block_stack":
+                    k = d.value.value.slice
+                    n += 1
+                    ok = isinstance(k, ast.UnaryOp) and isinstance(k.op, ast.USub) and isinstance(k.operand, ast.Constant) and k.operand.value == 1
+                    run.ob(ok, q, file=ctx.rel, line=c.lineno, detail=f"{d.attr}", expected="_block_stack[-1] (innermost open block)", found=src(d.value.value))
+    if n < 4:
+        raise AnalysisError(f"registration sites on the block stack not recognised ({n})")
+    run.end()
+
+
+def rule_idset(run):
+    run.begin(
+        "C12.idset",
+        "the identity set used to collect entities (and by every ordered traversal) is insertion ordered: adding an "
+        "element that is already present leaves its position unchanged (abstract evaluation of IdSet.add / __iter__)",
+        floor=4,
+    )
+    from ..absint import Interp, Reject
+    um = run.idx.mod("cohdl/utility/id_map.py")
+    f = um.func("IdSet.add")
+
+    class _Self:
+        def __init__(self):
+            self._content = {}
+
+    prims = {"id": lambda x: x, "__setattr__": lambda o, k, v: setattr(o, k, v), "iter": iter, "None": None}
+    for seq, exp in ((["a", "b", "a"], ["a", "b"]), (["a", "b", "c", "a", "b"], ["a", "b", "c"]), (["a", "a"], ["a"]), (["a", "b", "c"], ["a", "b", "c"])):
+        so = _Self()
+        try:
+            for e in seq:
+                Interp(um, dict(prims)).call_function("IdSet.add", so, e)
+            got = list(so._content.values())
+        except Reject as ex:
+            got = f"rejected: {ex}"
+        run.ob(got == exp, "IdSet.add", file=um.rel, line=f.node.lineno, detail="add " + ",".join(seq), expected=str(exp), found=str(got))
+    it = um.func("IdSet.__iter__")
+    ok = src(it.node.body[-1]) == "return iter(self._content.values())"
+    run.ob(ok, "IdSet.__iter__", file=um.rel, line=it.node.lineno, detail="iteration", expected="iterates the ordered content", found=src(it.node.body[-1]))
+    run.end()
+
+
+def rule_discard(run):
+    from . import c11
+    c11.rule_entityinfo(run)   # a stale elaboration makes a later instance differ from inlining the entity's current architecture
+
+
+def rule_usage(run):
+    from . import c07
+    c07.rule_usage(run)        # instance outputs obey the same driver rules as the assignments they stand for
+
+
+RULES = [rule_interface, rule_port_map, rule_templates, rule_library_order, rule_defaults, rule_shared, rule_registration, rule_idset, rule_usage]
 LEVEL = "other"
 EXPLANATION = (
     "Structural half of 'instantiating equals inlining', for all hierarchies: the emitted interface (declared ports, "
